@@ -293,6 +293,11 @@ func Driver(root string, p *Prop, tier string, seed int64) int {
 		}
 	}
 	sort.Strings(floorsMissed)
+	for k, v := range counters {
+		if strings.HasPrefix(k, "inconclusive:") && v > 0 {
+			incon = append(incon, fmt.Sprintf("%s (%d times)", strings.TrimPrefix(k, "inconclusive:"), v))
+		}
+	}
 
 	verdict := "held"
 	code := 0
